@@ -4,6 +4,7 @@ import (
 	"fmt"
 	"go/constant"
 	"go/token"
+	"go/types"
 	"sort"
 	"strings"
 
@@ -21,6 +22,7 @@ type BF struct {
 // BAtom is a canonical atom; enum-equality atoms on one symbol are mutually
 // exclusive in truth tables.
 type BAtom struct {
+	L       *Lin // for <= atoms: the canonical linear form (L <= 0)
 	Key     string
 	EnumSym string // non-empty for `sym == const` atoms
 	EnumVal int64
@@ -161,9 +163,9 @@ func atomBF(s *Sym, pos bool) *BF {
 		n.K++
 		k1, k2 := a.L.String(), n.String()
 		if k1 <= k2 {
-			f = &BF{Op: 'a', Atom: &BAtom{Key: k1 + " <= 0", Loads: atomLoads(a)}}
+			f = &BF{Op: 'a', Atom: &BAtom{Key: k1 + " <= 0", Loads: atomLoads(a), L: a.L}}
 		} else {
-			f = bfNot(&BF{Op: 'a', Atom: &BAtom{Key: k2 + " <= 0", Loads: atomLoads(a)}})
+			f = bfNot(&BF{Op: 'a', Atom: &BAtom{Key: k2 + " <= 0", Loads: atomLoads(a), L: n}})
 		}
 	case AEq, ANe:
 		// canonical sign: make the lexicographically first term positive
@@ -211,6 +213,21 @@ func atomBF(s *Sym, pos bool) *BF {
 // symBF builds the formula for a boolean symbol, expanding phi nodes of
 // short-circuit expressions.
 func (fi *FuncInfo) valueBF(v ssa.Value, depth int) *BF {
+	if depth == 0 {
+		if fi.bfCache == nil {
+			fi.bfCache = map[ssa.Value]*BF{}
+		}
+		if f, ok := fi.bfCache[v]; ok {
+			return f
+		}
+		f := fi.valueBF1(v, depth)
+		fi.bfCache[v] = f
+		return f
+	}
+	return fi.valueBF1(v, depth)
+}
+
+func (fi *FuncInfo) valueBF1(v ssa.Value, depth int) *BF {
 	if depth > 6 {
 		return atomBF(fi.Sym(v), true)
 	}
@@ -415,6 +432,13 @@ func (fi *FuncInfo) PathFormula(at ssa.Instruction, from int) (*BF, bool) {
 // pathsImply: every path's branch outcomes, restricted to the atoms that can
 // bear on spec (its own atoms and enum tests of the same symbols), entail spec.
 func (fi *FuncInfo) pathsImply(at ssa.Instruction, from int, spec *BF) (ok bool, undecided bool, detail string) {
+	return fi.pathsImplyOpt(at, from, spec, false)
+}
+
+// pathsImplyOpt: asTested=true reasons about the outcomes of the tests as they
+// were taken (no KILL): "whenever control reaches here, these tests had these
+// outcomes when they were evaluated".
+func (fi *FuncInfo) pathsImplyOpt(at ssa.Instruction, from int, spec *BF, asTested bool) (ok bool, undecided bool, detail string) {
 	target := at.Block().Index
 	if from < 0 {
 		from = 0
@@ -431,6 +455,17 @@ func (fi *FuncInfo) pathsImply(at ssa.Instruction, from int, spec *BF) (ok bool,
 			enumSyms[a.EnumSym] = true
 		}
 	}
+	// unsigned lemma: X == 0 entails X - Y <= 0; symbols X for which that matters
+	zeroSyms := map[string][]*BAtom{}
+	for _, a := range sm {
+		if a.L != nil && a.L.K <= 0 {
+			for k, cf := range a.L.T {
+				if cf == 1 && len(a.L.T) == 2 && isUnsignedSym(a.L.S[k]) {
+					zeroSyms[k] = append(zeroSyms[k], a)
+				}
+			}
+		}
+	}
 	relevant := func(f *BF) bool {
 		am := map[string]*BAtom{}
 		f.atoms(am)
@@ -442,6 +477,9 @@ func (fi *FuncInfo) pathsImply(at ssa.Instruction, from int, spec *BF) (ok bool,
 				continue
 			}
 			if a.EnumSym != "" && enumSyms[a.EnumSym] {
+				continue
+			}
+			if a.EnumSym != "" && a.EnumVal == 0 && zeroSyms[a.EnumSym] != nil {
 				continue
 			}
 			return false
@@ -502,9 +540,20 @@ func (fi *FuncInfo) pathsImply(at ssa.Instruction, from int, spec *BF) (ok bool,
 	}
 	sort.Strings(keys)
 	for _, k := range keys {
-		ante := bfAnd(final[k].fs...)
-		if why := fi.atomsKilled(ante, spec, at); why != "" {
-			return false, false, why
+		fs := final[k].fs
+		// apply the unsigned lemma: a positive literal X == 0 adds (X - Y <= 0)
+		for _, f := range final[k].fs {
+			if f.Op == 'a' && f.Atom.EnumSym != "" && f.Atom.EnumVal == 0 {
+				for _, le := range zeroSyms[f.Atom.EnumSym] {
+					fs = append(fs, &BF{Op: 'a', Atom: le})
+				}
+			}
+		}
+		ante := bfAnd(fs...)
+		if !asTested {
+			if why := fi.atomsKilled(ante, spec, at); why != "" {
+				return false, false, why
+			}
 		}
 		okI, why := bfImplies(ante, spec)
 		if why == "too many atoms" {
@@ -678,4 +727,13 @@ func (fi *FuncInfo) atomsKilled(code *BF, spec *BF, at ssa.Instruction) string {
 		}
 	}
 	return ""
+}
+
+
+func isUnsignedSym(s *Sym) bool {
+	if s == nil || s.Typ == nil {
+		return false
+	}
+	b, ok := s.Typ.Underlying().(*types.Basic)
+	return ok && b.Info()&types.IsUnsigned != 0
 }
